@@ -55,6 +55,15 @@ theorem sampling_splitting_correct {lt : Int → Int → Bool} (hlt : StrictWeak
       kMerge lt runs :=
   sampling_concat_eq_kMerge hlt tagOrder_tagLt (goodRuns_of_wellTagged hw hk) vs hvs
 
+/-- model component: the samples sorted by `sortKeys` (standing in for `std::(stable_)sort(samples, comp)`)
+are a non-decreasing permutation, and reading them at non-decreasing indices (`ns·k·slab/p`) gives
+non-decreasing splitters — the hypothesis `hvs` of `sampling_splitting_correct` holds for what the code uses -/
+theorem model_splitters_nondecreasing {lt : Int → Int → Bool} (hlt : StrictWeak lt) (samples : List Int)
+    (idx : List Nat) (hidx : idx.Pairwise (· ≤ ·)) (hb : ∀ i ∈ idx, i < (sortKeys lt samples).length) :
+    (sortKeys lt samples).Perm samples ∧
+    (idx.map (fun i => (sortKeys lt samples).getD i 0)).Pairwise (fun a b => lt b a = false) :=
+  ⟨sortKeys_perm lt samples, pairwise_map_getD hlt (sortKeys_sorted hlt samples) idx hidx hb⟩
+
 theorem thread_target_position (lt : Int → Int → Bool) {runs : List (List Elem)} (os : List (List Nat))
     (prev : List Nat) (hch : Chain prev os) (hall : ∀ o ∈ os, o.length = runs.length ∧ Bounded runs o)
     (t : Nat) (ht : t ≤ os.length) :
